@@ -14,6 +14,45 @@ from formulas.tokens.operand import XlError
 NUM, VALUE = F.Error.errors['#NUM!'], F.Error.errors['#VALUE!']
 
 
+def randbetween_halves(bits=12):
+    """bounds that are multiples of one half (1.5, -2.5 ...): the result is an integer r with
+    bottom <= r <= top, #NUM! exactly when no integer lies between them"""
+    st.MODE = 'bv'
+    st.install_numpy_stubs()
+    M.math = st.SMath()
+    u = z3.FP('u', st.F64)
+    b, t = z3.BitVec('b', 64), z3.BitVec('t', 64)          # bounds = b / 2, t / 2
+    saved = np.random.rand
+    np.random.rand = lambda *a: st.SFloat(u)
+    lim = 1 << bits
+    try:
+        def body():
+            return M.xrandbetween(st.SInt(b) / 2.0, st.SInt(t) / 2.0)
+
+        def post(out):
+            if out[0] == 'exc':
+                return False
+            r = out[1]
+            # smallest integer >= b/2 and largest integer <= t/2, in doubled units
+            lo = z3.If(z3.URem(b, 2) == 0, b, b + 1)
+            hi = z3.If(z3.URem(t, 2) == 0, t, t - 1)
+            if r is NUM:
+                return hi < lo
+            if isinstance(r, XlError):
+                return False
+            rt = st.fp(r)
+            isint = z3.fpEQ(z3.fpRoundToIntegral(z3.RTZ(), rt), rt)
+            two = z3.FPVal(2.0, st.F64)
+            r2 = z3.fpMul(st.RNE, rt, two)
+            return z3.And(hi >= lo, isint, z3.fpGEQ(r2, st.fp(st.SInt(lo))), z3.fpLEQ(r2, st.fp(st.SInt(hi))))
+        zero, one = z3.FPVal(0.0, st.F64), z3.FPVal(1.0, st.F64)
+        res = st.explore(body, post, [z3.fpGEQ(u, zero), z3.fpLT(u, one), b > -lim, b < lim, t > -lim, t < lim],
+                         timeout_s=400, use_cvc5=True)
+        return summarize(res, {'b': b, 't': t, 'u': u})
+    finally:
+        np.random.rand = saved
+
+
 def randbetween(bits=30):
     st.MODE = 'bv'
     st.install_numpy_stubs()
